@@ -22,11 +22,12 @@ def load(map_file):
     return _maps[map_file]
 
 class Gen:
-    def __init__(self, map_file, icvn, vriic, fic, seed=0, p_opt=0.0, max_rep=1, tspc=None, rand_codes=True):
+    def __init__(self, map_file, icvn, vriic, fic, seed=0, p_opt=0.0, max_rep=1, tspc=None, rand_codes=True, p_rich=0.0):
         self.map = load(map_file)
         self.icvn, self.vriic, self.fic, self.tspc = icvn, vriic, fic, tspc
         self.rng = random.Random(seed)
         self.p_opt = p_opt; self.max_rep = max_rep; self.rand_codes = rand_codes
+        self.p_rich = p_rich
         self.segs = []
         self.hl_count = 0; self.lx = 0; self.stseg = 0
         self.is837 = self.map.id == '837'
@@ -44,6 +45,22 @@ class Gen:
             codes = self.map.ext_codes.codes[el.external_codes]['codes']
             cands = [c for c in codes if mn <= len(c) <= mx]
             if cands: return cands[0]
+        if self.p_rich and self.rng.random() < self.p_rich:
+            # boundary-admissible values of the declared type (length counted without sign and point for numbers)
+            mn_i, mx_i = int(mn), int(mx)
+            cands = []
+            if dt == 'R':
+                cands = [v for v in ('-.5', '.5', '-1.5', '0.25', '-1', '9' * mx_i, '-' + '9' * mx_i) if mn_i <= len(v.replace('-', '').replace('.', '')) <= mx_i]
+            elif dt[0] == 'N':
+                cands = [v for v in ('-1', '0', '9' * mx_i, '-' + '9' * mx_i, '1' * mn_i) if mn_i <= len(v.replace('-', '')) <= mx_i]
+            elif dt == 'AN':
+                cands = [v for v in ('A B', "O'NEIL", 'A-B/C', '(X)', 'A.B,C', 'Z' * mx_i, 'A' * mn_i + '!') if mn_i <= len(v) <= mx_i]
+            elif dt == 'TM':
+                cands = [v for v in ('0000', '2359', '235959', '23595999', '1200301') if mn_i <= len(v) <= mx_i]
+            elif dt in ('DT', 'D8') and mx_i >= 8:
+                cands = ['20240229', '18000101', '20001231']
+            if cands:
+                return self.rng.choice(cands)
         if dt in ('ID','AN','B'): return 'A'*mn
         if dt[0]=='N' or dt=='R': return '1'*mn
         if dt in ('DT','D8'): return '20200101' if mx>=8 else '200101'
